@@ -814,6 +814,35 @@ def check_reverse_index(f):
                     # the test must read the plain index (not `i--`)
                     idx = ref_name(a)
         if idx is None:
+            # `while (--i != 0) use(x[i])`: the step is part of the test, the body only ever sees i >= 1
+            for op, l, r in atoms_of_cond(s0["c"], True):
+                for a, b, o in ((l, r, op), (r, l, {"<": ">", ">": "<", "<=": ">=", ">=": "<="}.get(op, op))):
+                    a0 = astx.strip_casts(a)
+                    if a0 is not None and a0.get("k") == "un" and a0["op"] == "--" and not a0.get("postfix") and ref_name(a0["e"]) \
+                            and zero(b) and o in ("!=", ">"):
+                        pre = ref_name(a0["e"])
+                        body_exprs = list(astx.walk_stmt_exprs(s0.get("body"), into_lambdas=True))
+                        if any(x.get("k") == "un" and x["op"] in ("++", "--") and is_name(x["e"], pre) for x in body_exprs):
+                            continue
+                        if any(x.get("k") == "bin" and x["op"] == "-" and is_name(x["l"], pre) for x in body_exprs):
+                            continue
+                        uses = any((x.get("k") == "idx" and any(is_name(y, pre) for y in astx.walk_expr(x.get("i")))) or
+                                   (x.get("k") == "call" and any(is_name(a1, pre) for a1 in x["a"])) for x in body_exprs)
+                        if not uses:
+                            continue
+                        pos0 = all_stmts.index(s0)
+                        inner0 = set(id(t) for t in astx.walk_stmts(s0))
+                        handled0 = False
+                        for t in [t for t in all_stmts[pos0 + 1:] if id(t) not in inner0]:
+                            for e in astx.stmt_exprs(t):
+                                for x in astx.walk_expr(e, into_lambdas=True):
+                                    if x.get("k") == "idx" and zero(x.get("i")):
+                                        handled0 = True
+                                    if x.get("k") == "call" and (astx.callee(x)[0] in ("front", "begin", "data") or any(zero(a1) for a1 in x["a"])):
+                                        handled0 = True
+                                    if is_name(x, pre):
+                                        handled0 = True
+                        out.append((pre, s0, handled0))
             continue
         if any(x.get("k") == "un" and x["op"] in ("--", "++") and is_name(x["e"], idx) for x in astx.walk_expr(s0["c"])):
             continue
@@ -2017,6 +2046,38 @@ def check_counted(f):
                     if k is not None and ((o == ">=" and k >= 0) or (o == ">" and k >= -1)):
                         return True
         return False
+    # a loop that counts the count itself down and stops at `count != 0` never stops inside the range for a negative count
+    signed_count = not re.search(r"size_t|unsigned", next((p0["ty"] for p0 in f["params"] if p0.get("n") == cnt), ""))
+    for lp in [st for st in astx.walk_stmts(f["body"]) if st.get("k") in ("for", "while") and st.get("c") is not None]:
+        c = astx.strip_casts(lp["c"])
+        hit = False
+        if c is not None and c.get("k") == "bin" and c["op"] == "!=":
+            for a, b in ((c["l"], c["r"]), (c["r"], c["l"])):
+                a0 = astx.strip_casts(a)
+                if a0 is not None and a0.get("k") == "un" and a0["op"] == "--":
+                    a0 = astx.strip_casts(a0["e"])
+                try:
+                    bz = astx.int_value(astx.strip_casts(b)) == 0
+                except Exception:
+                    bz = False
+                if ref_name(a0) == cnt and bz:
+                    hit = True
+        if not hit or not signed_count:
+            continue
+        # dominated by count > 0 / count >= 0 ?
+        dominated = False
+        for p in SP.paths(f["body"]):
+            ok_here = False
+            for ev in p:
+                if ev[0] == "cond" and ev[1] is lp["c"]:
+                    break
+                if ev[0] == "cond" and (positive(ev[1], ev[2]) or nonnegative(ev[1], ev[2])):
+                    ok_here = True
+            dominated = dominated or ok_here
+        if not dominated and id(lp) not in seen:
+            seen.add(id(lp))
+            out.append((lp, False, "the loop runs while `%s`: `%s` may be negative (the algorithm does nothing for count <= 0), and a negative "
+                        "count is stepped away from zero, so the loop leaves the range" % (astx.show(lp["c"], 40), cnt)))
     for p in SP.paths(f["body"]):
         pos = False
         nonneg[0] = False
